@@ -21,14 +21,15 @@ Definition obs_of (sv : Solver) (st : option Status) : Obs := (st, sv_out sv, sv
 Section Hist.
 Variable K : Consts.
 Variable ident : bool.
+Variable sparse_pc : bool.
 Variable cp_bits : Z.
 Variable fault : nat -> bool.
 
 (* one call on a solver object that may not have been set up yet (update / solve before setup are rejected: C05) *)
 Definition step (j : F) (st : option Solver) (op : Op) : res (option Solver * Obs) :=
   match op, st with
-  | OSetup S0 n p m B, _ => do sv <- setup K ident j S0 n p m B ;; Ok (Some sv, obs_of sv None)
-  | OUpdate B r, Some sv => do sv' <- update K sv B r ;; Ok (Some sv', obs_of sv' None)
+  | OSetup S0 n p m B, _ => do sv <- setup K ident sparse_pc j S0 n p m B ;; Ok (Some sv, obs_of sv None)
+  | OUpdate B r, Some sv => do sv' <- update K sparse_pc sv B r ;; Ok (Some sv', obs_of sv' None)
   | OSolve, Some sv => do '(sv', stt) <- solve K j cp_bits fault sv ;; Ok (Some sv', obs_of sv' (Some stt))
   | _, None => Err Shape
   end.
@@ -75,11 +76,11 @@ Lemma step_inv j dims st op st' o :
   st_inv dims st -> ops_ok dims [op] -> step j st op = Ok (st', o) -> st_inv (dims_after dims op) st'.
 Proof.
   intros HI HO E. destruct op as [S0 n p m B|B r|]; cbn in HO, E |- *.
-  - destruct (setup K ident j S0 n p m B) as [sv|] eqn:Es; cbn [bind] in E; [|destruct st; discriminate].
+  - destruct (setup K ident sparse_pc j S0 n p m B) as [sv|] eqn:Es; cbn [bind] in E; [|destruct st; discriminate].
     assert (E' : Ok (Some sv, obs_of sv None) = Ok (st', o)) by (destruct st; exact E).
     injection E' as <- _. cbn. eapply setup_wf; eauto. apply HO.
   - destruct st as [sv|]; [|discriminate]. destruct dims as [[[n p] m]|]; [|contradiction].
-    destruct (update K sv B r) as [sv'|] eqn:Eu; cbn [bind] in E; [|discriminate]. injection E as <- _. cbn.
+    destruct (update K sparse_pc sv B r) as [sv'|] eqn:Eu; cbn [bind] in E; [|discriminate]. injection E as <- _. cbn.
     eapply update_wf; eauto. apply HO.
   - destruct st as [sv|]; [|discriminate]. destruct dims as [[[n p] m]|]; [|contradiction].
     destruct (solve K j cp_bits fault sv) as [[sv' stt]|] eqn:Eu; cbn [bind] in E; [|discriminate]. injection E as <- _. cbn.
@@ -97,8 +98,8 @@ Lemma step_setup_solve j1 j2 dims st1 st2 op :
   RR step_rel (step j1 st1 op) (step j2 st2 op).
 Proof.
   intros HA HI Hop. destruct op as [S0 n p m B|B r|]; cbn.
-  - assert (H : RR step_rel (do sv <- setup K ident j1 S0 n p m B ;; Ok (Some sv, obs_of sv None))
-                            (do sv <- setup K ident j2 S0 n p m B ;; Ok (Some sv, obs_of sv None))).
+  - assert (H : RR step_rel (do sv <- setup K ident sparse_pc j1 S0 n p m B ;; Ok (Some sv, obs_of sv None))
+                            (do sv <- setup K ident sparse_pc j2 S0 n p m B ;; Ok (Some sv, obs_of sv None))).
     { eapply RR_bind; [apply setup_junk_indep|]. intros a b H. apply sv_agree_strong_agree in H.
       cbn. split; [exact H|apply obs_of_agree; exact H]. }
     destruct st1, st2; exact H.
@@ -114,10 +115,10 @@ Lemma step_update_ok j1 j2 st1 st2 B r x y :
   opt_agree st1 st2 -> step j1 st1 (OUpdate B r) = Ok x -> step j2 st2 (OUpdate B r) = Ok y -> step_rel x y.
 Proof.
   intros HA E1 E2. cbn in E1, E2. destruct st1 as [a|], st2 as [b|]; cbn in HA; try contradiction; try discriminate.
-  destruct (update K a B r) as [a'|] eqn:Ea; cbn [bind] in E1; [|discriminate].
-  destruct (update K b B r) as [b'|] eqn:Eb; cbn [bind] in E2; [|discriminate].
+  destruct (update K sparse_pc a B r) as [a'|] eqn:Ea; cbn [bind] in E1; [|discriminate].
+  destruct (update K sparse_pc b B r) as [b'|] eqn:Eb; cbn [bind] in E2; [|discriminate].
   injection E1 as <-. injection E2 as <-.
-  pose proof (update_agree_ok K a b B r a' b' HA Ea Eb) as H.
+  pose proof (update_agree_ok K sparse_pc a b B r a' b' HA Ea Eb) as H.
   split; [exact H|apply obs_of_agree; exact H].
 Qed.
 
@@ -188,14 +189,14 @@ Lemma step_agreeJ j1 j2 dims st1 st2 op :
   RR (step_relJ j1 j2) (step j1 st1 op) (step j2 st2 op).
 Proof.
   intros HA HI HO Hd. destruct op as [S0 n p m B|B r|]; cbn.
-  - assert (H : RR (step_relJ j1 j2) (do sv <- setup K ident j1 S0 n p m B ;; Ok (Some sv, obs_of sv None))
-                                     (do sv <- setup K ident j2 S0 n p m B ;; Ok (Some sv, obs_of sv None))).
-    { eapply RR_bind; [apply (setup_agreeJ K SK); apply HO|]. intros a b H.
+  - assert (H : RR (step_relJ j1 j2) (do sv <- setup K ident sparse_pc j1 S0 n p m B ;; Ok (Some sv, obs_of sv None))
+                                     (do sv <- setup K ident sparse_pc j2 S0 n p m B ;; Ok (Some sv, obs_of sv None))).
+    { eapply RR_bind; [apply (setup_agreeJ K sparse_pc SK); apply HO|]. intros a b H.
       split; [exact H|apply obs_of_agree; apply H]. }
     destruct st1, st2; exact H.
   - destruct st1 as [a|], st2 as [b|]; cbn in HA; try contradiction; [|reflexivity].
     destruct dims as [[[n p] m]|]; [|contradiction].
-    eapply RR_bind; [apply (update_agreeJ K SK j1 j2 n p m); [exact HA|exact HI|apply HO|exact Hd]|].
+    eapply RR_bind; [apply (update_agreeJ K sparse_pc SK j1 j2 n p m); [exact HA|exact HI|apply HO|exact Hd]|].
     intros a' b' H. split; [exact H|apply obs_of_agree; apply H].
   - destruct st1 as [a|], st2 as [b|]; cbn in HA; try contradiction; [|reflexivity].
     destruct dims as [[[n p] m]|]; [|contradiction].
@@ -279,14 +280,14 @@ Qed.
 End Inter.
 
 (* the instance for the solver model: a call that leaves the model's domain is logged and leaves the object as it was *)
-Definition step_tot (K : Consts) (identf : nat -> bool) (junkf : nat -> F) (cpf : nat -> Z) (faultf : nat -> nat -> bool)
+Definition step_tot (K : Consts) (identf sparsef : nat -> bool) (junkf : nat -> F) (cpf : nat -> Z) (faultf : nat -> nat -> bool)
     (i : nat) (st : option Solver) (op : Op) : option Solver * res Obs :=
-  match step K (identf i) (cpf i) (faultf i) (junkf i) st op with
+  match step K (identf i) (sparsef i) (cpf i) (faultf i) (junkf i) st op with
   | Ok (st', o) => (st', Ok o)
   | Err e => (st, Err e)
   end.
 
-Theorem no_shared_state_solver K identf junkf cpf faultf (l : list (nat * Op)) (P : nat -> option Solver) (i : nat) :
-  outs_of _ i (run_inter _ _ _ (step_tot K identf junkf cpf faultf) P l) =
-  run_seq _ _ _ (step_tot K identf junkf cpf faultf) i (P i) (calls_of _ i l).
+Theorem no_shared_state_solver K identf sparsef junkf cpf faultf (l : list (nat * Op)) (P : nat -> option Solver) (i : nat) :
+  outs_of _ i (run_inter _ _ _ (step_tot K identf sparsef junkf cpf faultf) P l) =
+  run_seq _ _ _ (step_tot K identf sparsef junkf cpf faultf) i (P i) (calls_of _ i l).
 Proof. apply no_shared_state. Qed.
